@@ -758,7 +758,14 @@ func (g *gen) function(idx int) {
 		val := g.exprOf(ret, 2, false).s
 		switch {
 		case g.f.finalDiverge && (g.force == TagFinalDiverge || g.r.Chance(1, 3)):
-			switch g.r.Intn(3) {
+			k := g.r.Intn(3)
+			if k == 2 && g.force != TagFinalDiverge {
+				// a final diverging `loop` is only typed as diverging if no never-typed expression
+				// (throw(..), a block ending in return) was analysed before it anywhere in the module
+				// (analyzer state leak, reported to C03): only the poisoned workload uses it
+				k = 0
+			}
+			switch k {
 			case 0:
 				g.emit("return %s;", val)
 			case 1:
@@ -928,7 +935,7 @@ func genCases(tier string, seed uint64) []fw.Case {
 	nMain, nPoison, nSeeds := 260, 24, 8
 	passes := []int{1, 2, 3}
 	if tier == "thorough" {
-		nMain, nPoison, nSeeds = 2400, 100, 32
+		nMain, nPoison, nSeeds = 1500, 60, 24
 		passes = []int{1, 2, 3, 5}
 	}
 	r := fw.NewRng(seed ^ 0xC20)
